@@ -3,7 +3,7 @@
    the checks look at, and the push-back stream on a list of ordinary tokens. *)
 From Coq Require Import ZArith NArith List Bool Lia.
 From JP Require Import Base Json PyStr PyJsonStr Syntax Lex Parse Serialize TokPrint Gate.
-From JP Require Import PyStrLemmas GateLemmas ParseSpec LexProofs.
+From JP Require Import PyStrLemmas ParseEqns GateLemmas ParseSpec LexProofs.
 Import ListNotations.
 
 (* ---- integers ---------------------------------------------------------------------------------- *)
@@ -100,14 +100,8 @@ Proof. destruct fl as [[] [] [] []]; reflexivity. Qed.
 
 Lemma parse_float_literal_float t e : parse_float_literal t = Ok e -> exists n, e = FFloat n.
 Proof.
-  unfold parse_float_literal. intros H.
-  destruct (split_number t) as [[[[neg ip] fp] ex]|]; [|discriminate H].
-  destruct (Z.leb 400 ex); [discriminate H|].
-  match type of H with context [if ?c then _ else _] => destruct c end; [discriminate H|].
-  cbv zeta in H. match type of H with context [if ?c then _ else _] => destruct c end.
-  - injection H as <-. eauto.
-  - match type of H with context [match ?p with Zpos _ => _ | _ => _ end] => destruct p end;
-      try discriminate H. injection H as <-. eauto.
+  intros H. destruct (parse_float_literal_cases t) as [H'|[H'|[n H']]]; rewrite H' in H;
+    try discriminate H. injection H as <-. eauto.
 Qed.
 
 Lemma norm_float n : exists n', norm_expr (FFloat n) = FFloat n'.
